@@ -592,10 +592,12 @@ class InitialTransition(Contract):
     exc_classes = ["InvalidStateValue"]
     modifies = TRANSITION_FRESH
     properties = ["C02", "C11"]
-    trusted = True  # body not yet under contract: needs Transition/State constructor contracts
+    trusted = False
 
     def pre(self, s, a):
+        from .model import wf_class
         f = dict(wf_world(s))
+        f.update(wf_class(s))
         f["self-is-engine"] = a.self.e == W.ENG
         f["registry-wf"] = wf_registry(s)
         f["state-cache-wf"] = wf_cache(s)
